@@ -35,7 +35,7 @@ static void mw_env_append_bytes(const char *tag)
 	sqfs_u64 grow = verif_nd_u64(tag);
 
 	/* zero or more whole blocks appended at the end (write_block contract) */
-	if (grow <= (sqfs_u64)1 << 40 && g_fsize <= ((sqfs_u64)1 << 62))
+	if (g_fsize <= C14_FILE_MAX && grow <= C14_FILE_MAX - g_fsize)
 		g_fsize += grow;
 }
 
@@ -110,9 +110,10 @@ void harness(void)
 	sqfs_u8 *table;
 	int ret;
 
-	VERIF_ASSUME(size0 >= C14_SUPER_SZ && size0 <= ((sqfs_u64)1 << 60));
+	VERIF_ASSUME(size0 >= C14_SUPER_SZ && size0 <= C14_FILE_MAX);
 	VERIF_ASSUME(table_size <= TABLE_MAX);
 	c14_file_init(size0);
+	g_mw_live = 0;
 	table = malloc(table_size);
 	VERIF_ASSUME(table != NULL);
 
